@@ -283,8 +283,15 @@ class StorageBase(metaclass=ABCMeta):
 
         # create the field with the data of the given index
         assert self._field is not None
-        field = self._field.copy()
-        field.data = self.data[t_index]
+        data = np.asanyarray(self.data[t_index])
+        if np.can_cast(data.dtype, self._field.dtype, casting="safe"):
+            field = self._field.copy()
+        else:
+            # the frame was stored with a dtype that the template cannot hold (e.g., float64
+            # data in a float32 storage): return it unchanged instead of narrowing it
+            dtype = np.result_type(data.dtype, self._field.dtype)
+            field = self._field.copy(dtype=dtype)
+        field.data = data
         return field
 
     def __getitem__(self, key: int | slice) -> FieldBase | list[FieldBase]:
